@@ -257,6 +257,45 @@ def h_import(c):
   c.check(len(seq.instrument_infos) == I - 1, 'instrument names kept')
 
 
+def h_drop(c):
+  """Export with drop_events_n_seconds_after_last_note: every event at or
+  before (last note END + n) is written, later ones are not - whatever the
+  header field total_time says (it may be unset or stale in a hand-built
+  sequence)."""
+  mio = c.mod('midi_io')
+  ns = c.pb.NoteSequence()
+  ns.ticks_per_quarter = 220
+  s_, e_ = c.real('n_s', 0), c.real('n_e', 0)
+  c.assume(s_ < e_)
+  ns.notes.add(pitch=60, velocity=80, start_time=s_, end_time=e_)
+  ns.total_time = c.real('total_time', 0)   # free: accurate, unset or stale
+  n_drop = c.real('drop', 0, 8)
+  ns.tempos.add(time=0, qpm=120)
+  t_ts, t_ks, t_cc, t_pb = (c.real('ts_t', 0), c.real('ks_t', 0),
+                            c.real('cc_t', 0), c.real('pb_t', 0))
+  ns.time_signatures.add(time=t_ts, numerator=3, denominator=4)
+  ns.key_signatures.add(time=t_ks, key=7)
+  ns.control_changes.add(time=t_cc, control_number=64, control_value=100)
+  ns.pitch_bends.add(time=t_pb, bend=100)
+  pm = mio.note_sequence_to_pretty_midi(
+      ns, drop_events_n_seconds_after_last_note=n_drop)
+  cutoff = e_ + n_drop
+  ins = [i for i in pm.instruments if len(i.notes)]
+  c.check(len(ins) == 1 and len(ins[0].notes) == 1, 'the note is exported')
+  for label, t, got in (
+      ('time signature', t_ts, len(pm.time_signature_changes)),
+      ('key signature', t_ks, len(pm.key_signature_changes)),
+      ('control change', t_cc, len(ins[0].control_changes) if ins else 0),
+      ('pitch bend', t_pb, len(ins[0].pitch_bends) if ins else 0)):
+    keep = c.concretize(t <= cutoff)
+    c.check(got == (1 if keep else 0),
+            '%s kept iff its time <= last note end + n' % label)
+  c.cover('total_time smaller than the note end (stale header field)',
+          ns.total_time < e_)
+  c.cover('an event between total_time + n and note end + n',
+          c.And(ns.total_time + n_drop < t_cc, t_cc <= cutoff))
+
+
 def h_roundtrip(c):
   """import(export(s)) == s as a bag, instruments renumbered consistently."""
   mio = c.mod('midi_io')
@@ -315,6 +354,7 @@ def h_roundtrip(c):
 
 
 HARNESSES = {
+    'h_drop': h_drop,
     'h_export_grouping': h_export_grouping,
     'h_tempo_order': h_tempo_order,
     'h_import': h_import,
@@ -343,6 +383,7 @@ def jobs(tier):
   add('h_tempo_order', K=3, q=[1, 0, 1], order=[0, 1, 2])
   add('h_tempo_order', K=3, q=[1, 0, 1], order=[2, 0, 1])
   add('h_tempo_order', K=3, q=[1, 1, 0], order=[0, 1, 2])
+  add('h_drop')
   add('h_import', I=1, N=2)
   add('h_import', I=2, N=1)
   add('h_roundtrip', N=2, budget=900)
